@@ -31,11 +31,17 @@ def routeVerdict (cs : Bool) (fs : FS) (urlPath : Bytes) (rules : List Rule) (o 
 def lookup (env : List (Bytes × Bytes)) (k : Bytes) : Option Bytes :=
   (env.find? (fun kv => kv.1 == k)).map (·.2)
 
-/-- the CGI names two different headers are mapped to do not collide, nor with a configured entry -/
+/-- the CGI names two different headers are mapped to do not collide, nor with a configured entry,
+and the configuration does not itself override DOCUMENT_URI / PATH_INFO -/
+def distinct : List Bytes → Bool
+  | [] => true
+  | x :: xs => !xs.contains x && distinct xs
+
 def noCollisions (r : Req) (rule : Rule) : Bool :=
   let names := r.headers.map (fun h => envName h.1)
-  names.eraseDups.length == names.length && rule.env.all (fun kv => !names.contains kv.1) &&
-  (rule.env.map (·.1)).eraseDups.length == rule.env.length
+  distinct names && rule.env.all (fun kv => !names.contains kv.1) &&
+  distinct (rule.env.map (·.1)) &&
+  rule.env.all (fun kv => kv.1 != bytes "DOCUMENT_URI" && kv.1 != bytes "PATH_INFO")
 
 /-- the script paths the request can stand for: its path without trailing dots and spaces, or
 an index file of the rule below it -/
